@@ -5,6 +5,7 @@ import (
 	"fmt"
 	"go/ast"
 	stdparser "go/parser"
+	"go/scanner"
 	"go/token"
 	"hash/fnv"
 	"io/fs"
@@ -177,3 +178,65 @@ func isIdentByte(c byte) bool {
 
 // ReadFile is os.ReadFile; corpus files that vanish are reported, not ignored.
 func ReadFile(path string) ([]byte, error) { return os.ReadFile(path) }
+
+// HasControlByteLiteral reports whether src (scanned with the standard scanner) holds a
+// rune literal or an interpreted string literal containing a raw control byte (< 0x20
+// or 0x7f, e.g. an actual TAB), or a backquoted string containing a control byte other
+// than TAB and newline: literals whose text a formatter is most likely to damage.
+func HasControlByteLiteral(src []byte) bool {
+	var s scanner.Scanner
+	fset := token.NewFileSet()
+	s.Init(fset.AddFile("x.go", -1, len(src)), src, func(token.Position, string) {}, 0)
+	for {
+		_, tok, lit := s.Scan()
+		if tok == token.EOF {
+			return false
+		}
+		if tok != token.CHAR && tok != token.STRING {
+			continue
+		}
+		raw := lit[0] == '`'
+		for i := 0; i < len(lit); i++ {
+			c := lit[i]
+			if (c < 0x20 || c == 0x7f) && !(raw && (c == '\n' || c == '\t')) {
+				return true
+			}
+		}
+	}
+}
+
+var (
+	ctlOnce  sync.Once
+	ctlFiles []string
+)
+
+// ControlByteLiteralFiles returns, sorted, the corpus files for which
+// HasControlByteLiteral holds (found by scanning the whole corpus once per process, about
+// 2 s; 10 files in Go 1.23.5 + gomacro). Checks about printing add them to every sample.
+func ControlByteLiteralFiles() []string {
+	ctlOnce.Do(func() {
+		for _, path := range CorpusFiles() {
+			src, err := os.ReadFile(path)
+			if err == nil && HasControlByteLiteral(src) {
+				ctlFiles = append(ctlFiles, path)
+			}
+		}
+	})
+	return append([]string(nil), ctlFiles...)
+}
+
+// Union merges sorted-or-not path lists into one sorted list without duplicates.
+func Union(lists ...[]string) []string {
+	seen := map[string]bool{}
+	var out []string
+	for _, l := range lists {
+		for _, f := range l {
+			if !seen[f] {
+				seen[f] = true
+				out = append(out, f)
+			}
+		}
+	}
+	sort.Strings(out)
+	return out
+}
